@@ -32,6 +32,8 @@ struct RunState {
 
 thread_local! {
     static CURRENT: RefCell<Option<Arc<Run>>> = const { RefCell::new(None) };
+    /// apseq of the last active-set hook event emitted on this thread (multi-thread stress)
+    pub static LAST_APSEQ: std::cell::Cell<i64> = const { std::cell::Cell::new(-1) };
 }
 
 /// For multi-thread modes: a process-global run used when no thread-local run is set.
@@ -102,6 +104,22 @@ impl Run {
         run
     }
 
+    /// A process-global run for multi-thread modes (real sockets, wall-clock times).
+    pub fn begin_global(seed: u64) -> Arc<Run> {
+        install_hooks();
+        let run = Arc::new(Run {
+            fabric: Fabric::new(seed),
+            epoch: tokio::time::Instant::now(),
+            state: Mutex::new(RunState::default()),
+        });
+        set_global(Some(run.clone()));
+        run
+    }
+
+    pub fn end_global(&self) {
+        set_global(None);
+    }
+
     pub fn end(&self) {
         CURRENT.with(|c| *c.borrow_mut() = None);
         crate::gate::reset();
@@ -125,6 +143,11 @@ impl Run {
     }
 
     fn record_hook(&self, ev: &'static str, fields: Value) {
+        if let Some(seq) = fields.get("apseq").and_then(Value::as_i64) {
+            if ev != "ap.event" {
+                LAST_APSEQ.with(|c| c.set(seq));
+            }
+        }
         let mut st = self.state.lock().unwrap();
         let mut obj = match fields {
             Value::Object(m) => m,
